@@ -36,6 +36,7 @@ from secsgem.hsms.select_req_header import HsmsSelectReqHeader  # noqa: E402
 from secsgem.hsms.stream_function_header import HsmsStreamFunctionHeader  # noqa: E402
 
 KNOWN_CLASS = "c06-dispatcher-leak"
+KNOWN_STALE_GATE = "c06-hsms-queued-rejected-after-reconnect"
 
 
 class RetryDriver(hlib.Driver):
@@ -1181,6 +1182,57 @@ def part_link_loss_in_progress(cx: Ctx):
             impl = [f"{a_}:{b_}" for (a_, b_) in got]
             if m is None or [x for x in m["delivered"] if int(x.split(":")[0]) >= base] != impl:
                 res.disagree("link loss with queued messages vs Model.Txn", {"case": case, "line": line[:1200]}, ans[:400], impl)
+    # ---- (a') the same on HSMS: the select gate is evaluated when the dispatcher gets to a message, i.e. possibly on the NEXT connection
+    rig = Rig(t3=1.0)
+    if rig.connect():
+        gate = threading.Event()
+        base = 660000
+        systems = [base + i for i in range(3)]
+        rig.block_first = (systems[0], gate, 4.0)
+        for i, s_ in enumerate(systems):
+            rig.feed(data_msg(s_, 6, 31 + 2 * i))
+        limit = time.time() + 2.0
+        while time.time() < limit:
+            with rig.ev_lock:
+                started = any(e[0] == "start" for e in rig.events)
+            if started and rig.p._thread._dispatch_queue.qsize() >= 2:
+                break
+            time.sleep(0.003)
+        queued = rig.p._thread._dispatch_queue.qsize()
+        with rig.c.lock:
+            n0 = len(rig.c.frames)
+        rig.disconnect()
+        time.sleep(0.02)
+        selected = rig.connect()
+
+        def delivered_h():
+            with rig.ev_lock:
+                return [(s_, t) for (k, s_, t) in rig.events if k == "start" and s_ >= base]
+
+        want = [(s_, 6 * 256 + 31 + 2 * i) for i, s_ in enumerate(systems)]
+        limit = time.time() + 1.0
+        while time.time() < limit and len(delivered_h()) < len(want):
+            time.sleep(0.005)
+        gate.set()
+        limit = time.time() + 2.0
+        while time.time() < limit and len(delivered_h()) < len(want):
+            time.sleep(0.005)
+        rig.block_first = None
+        rig.quiesce(limit=1.0)
+        got = delivered_h()
+        with rig.c.lock:
+            after = [(b.header.s_type.name, b.header.system) for b in rig.c.frames[n0:]]
+        rejects = [sy for (nm, sy) in after if nm == "REJECT_REQ"]
+        case = {"part": "link-loss", "variant": "hsms-queued-behind-busy-handler", "queued": queued, "reselected": selected,
+                "delivered": got, "frames_sent_after_the_drop": after}
+        res.count(("link-loss-queued-hsms",), sample=case)
+        res.bump("hsms_messages_queued_before_link_loss", f"delivered={len(got)}/3 rejected_on_new_link={len(rejects)}")
+        if got != want:
+            # the recorded finding: exactly "queued before the bounce, answered with Reject.req on the new link, never delivered"
+            lost = [w for w in want if w not in got]
+            klass = KNOWN_STALE_GATE if (got == [w for w in want if w in got] and lost and all(sy in rejects for (sy, _t) in lost)) else "c06-queued-lost"
+            res.violate(klass, "HSMS: data messages received while SELECTED and queued behind a busy message_received handler were dispatched after the "
+                        "link bounce, answered with Reject.req on the NEW link and never handed to the application", case, want, got)
     # ---- (b)
     for variant in ("reply-after-reconnect", "no-reply"):
         rig = Rig(t3=0.8)
